@@ -136,12 +136,20 @@ func (m *Modifier) ModifyResponse(res *http.Response) error {
 	var ranges [][]int
 	for _, rng := range sranges {
 		rng = strings.TrimSpace(rng)
+		if rng == "" {
+			// Empty list elements are legal and carry nothing.
+			continue
+		}
 		if strings.HasPrefix(rng, "-") {
 			// Suffix range: the last n bytes.
 			n, err := position(rng[1:])
-			if err != nil || n <= 0 {
+			if err != nil || n < 0 {
 				m.notSatisfiable(res)
 				return nil
+			}
+			if n == 0 || len(m.body) == 0 {
+				// Selects nothing; the other ranges of the set are still served.
+				continue
 			}
 			if n > len(m.body) {
 				n = len(m.body)
@@ -149,7 +157,8 @@ func (m *Modifier) ModifyResponse(res *http.Response) error {
 			rng = fmt.Sprintf("%d-%d", len(m.body)-n, len(m.body)-1)
 		}
 		if strings.HasSuffix(rng, "-") {
-			rng = fmt.Sprintf("%s%d", rng, len(m.body)-1)
+			// Open-ended: through the last byte (clamped below).
+			rng = fmt.Sprintf("%s%d", rng, math.MaxInt)
 		}
 
 		rs := strings.Split(rng, "-")
@@ -170,9 +179,13 @@ func (m *Modifier) ModifyResponse(res *http.Response) error {
 			return nil
 		}
 
-		if start > end || start < 0 || start >= len(m.body) {
+		if start > end || start < 0 {
 			m.notSatisfiable(res)
 			return nil
+		}
+		if start >= len(m.body) {
+			// Selects nothing; the set is satisfiable if another range is.
+			continue
 		}
 		// A last position beyond the end means "through the last byte".
 		if end >= len(m.body) {
@@ -180,6 +193,10 @@ func (m *Modifier) ModifyResponse(res *http.Response) error {
 		}
 
 		ranges = append(ranges, []int{start, end})
+	}
+	if len(ranges) == 0 {
+		m.notSatisfiable(res)
+		return nil
 	}
 
 	// Range request.
@@ -243,8 +260,12 @@ func (m *Modifier) notSatisfiable(res *http.Response) {
 // position parses a byte position or suffix length. Digits that do not fit an
 // int stand for a position beyond any content, which the caller clamps.
 func position(s string) (int, error) {
-	n, err := strconv.Atoi(strings.TrimSpace(s))
-	if errors.Is(err, strconv.ErrRange) && n > 0 {
+	s = strings.TrimSpace(s)
+	if s == "" || strings.Trim(s, "0123456789") != "" {
+		return 0, fmt.Errorf("not a byte position: %q", s)
+	}
+	n, err := strconv.Atoi(s)
+	if errors.Is(err, strconv.ErrRange) {
 		return math.MaxInt, nil
 	}
 	return n, err
